@@ -264,6 +264,19 @@ func tEq(a, b *Term) *Term {
 		}
 	}
 	if a.Sort == SF64 || a.Sort == SF32 {
+		if a.IntOf != nil && b.IntOf != nil {
+			return tEq(a.IntOf, b.IntOf) // exact and injective within +-2^53
+		}
+		if a.IntOf != nil {
+			if f, ok := b.F64Val(); ok && f == float64(int64(f)) && f < 9.1e15 && f > -9.1e15 {
+				return tEq(a.IntOf, mkInt(int64(f)))
+			}
+		}
+		if b.IntOf != nil {
+			if f, ok := a.F64Val(); ok && f == float64(int64(f)) && f < 9.1e15 && f > -9.1e15 {
+				return tEq(b.IntOf, mkInt(int64(f)))
+			}
+		}
 		return newTerm("fp.eq", SBool, a, b)
 	}
 	if a.Sort == SStr {
@@ -582,6 +595,9 @@ func tFCmp(op string, a, b *Term) *Term {
 func tFIsNaN(a *Term) *Term {
 	if x, ok := a.F64Val(); ok {
 		return mkBool(x != x)
+	}
+	if a.IntOf != nil {
+		return tFalse
 	}
 	return newTerm("fp.isNaN", SBool, a)
 }
@@ -967,6 +983,11 @@ func (t *Term) write(b *strings.Builder, ref func(*Term) (string, bool)) {
 		b.WriteString("(str.in_re ")
 		t.Args[0].write(b, ref)
 		b.WriteString(" (re.* (re.union (re.range \" \" \"@\") (re.range \"[\" \"~\"))))")
+		return
+	case "in_re_digits":
+		b.WriteString("(str.in_re ")
+		t.Args[0].write(b, ref)
+		b.WriteString(" (re.++ (re.opt (str.to_re \"-\")) (re.+ (re.range \"0\" \"9\"))))")
 		return
 	case "in_re_bytes":
 		b.WriteString("(str.in_re ")
